@@ -8,7 +8,8 @@
  *   uinc [base] <alpha> <len> <from> <count>   inc_lexically_normal + the paths inc_open tries to open
  *   ulp1 [s] | ucvp1 <policy> [s] | usn1 [s] | uinc1 [base] [name]      the same for one explicit string
  * system style (file efuns called from LPC, libc file functions interposed and logged):
- *   policy deny|allow|echo|fixed=[str]         master policy for valid_read / valid_write
+ *   policy deny|allow|echo|fixed=[str]|raise|raiseon=[path]|odd=[array|emptyarray|float|float0|object|neg|two]
+ *                                              master policy for valid_read / valid_write
  *   fx <efun> [a] [b]                          fresh fixture, then /c15/obj->do_efun (efun, a, b)
  *   inc [basefile] [name]                      fresh fixture, basefile := `#include "name"`, load it
  *   inh [basefile] [name]                      fresh fixture, basefile := `inherit "name";`, load it
@@ -457,6 +458,12 @@ static void verdict_text (const char *s, char *out, size_t n)
     snprintf (out, n, "1");
   else if (!strcmp (pol_kind, "echo"))
     snprintf (out, n, "=[%s]", s);
+  else if (!strcmp (pol_kind, "raise"))
+    snprintf (out, n, "raise");
+  else if (!strcmp (pol_kind, "raiseon"))
+    snprintf (out, n, "%s", strcmp (s, pol_str) ? "1" : "raise");
+  else if (!strcmp (pol_kind, "odd"))
+    snprintf (out, n, "odd:%s", pol_str);
   else
     snprintf (out, n, "=[%s]", pol_str);
 }
@@ -696,11 +703,39 @@ static void sys_load (const char *kind, const char *file, const char *a0, const 
     }
 }
 
+static void ed_do (object_t * ob, const char *cmd0, const char *arg)
+{
+  error_context_t econ;
+  char cmd[4300];
+  if (!ob->interactive || !ob->interactive->ed_buffer)
+    return;
+  snprintf (cmd, sizeof cmd, "%s%s", cmd0, arg);	/* ed_cmd () appends to its argument */
+  save_context (&econ);
+  if (!setjmp (econ.context))
+    {
+      command_giver = ob;
+      ed_cmd (cmd);
+      pop_context (&econ);
+    }
+  else
+    {
+      restore_context (&econ);
+      pop_context (&econ);
+    }
+}
+
 static int c15_cmd (char *line)
 {
   char copy[8192];
   char *tok[16];
   static char sbuf[4200];
+  if (!strcmp (line, "master absent"))
+    {
+      /* this case must run with the master that has no valid_read / valid_write (props/c15.py picks the conf) */
+      int has = function_exists ("valid_read", master_ob, 0) != 0;
+      vh_out (has ? "master present" : "master absent");
+      return 1;
+    }
   if (strncmp (line, "u", 1) && strncmp (line, "policy ", 7) && strncmp (line, "fx ", 3)
       && strncmp (line, "inc ", 4) && strncmp (line, "inh ", 4) && strncmp (line, "ld ", 3))
     return 0;
@@ -792,7 +827,6 @@ static int c15_cmd (char *line)
       if (!strcmp (a[0], "ed"))
 	{
 	  /* ed (file) by an interactive user, then the editor commands "w <b>" (when b starts with '/') and "Q" */
-	  error_context_t econ;
 	  char *b = a[2];
 	  a[2] = (char *) "";
 	  if (!ob->interactive)
@@ -803,32 +837,11 @@ static int c15_cmd (char *line)
 	  command_giver = ob;
 	  fs_armed = 1;
 	  vh_apply_str (ob, "do_efun", 3, a, 0, 0);
-	  if (ob->interactive && ob->interactive->ed_buffer)
-	    {
-	      char cmd[4300];
-	      save_context (&econ);
-	      if (!setjmp (econ.context))
-		{
-		  command_giver = ob;
-		  if (b[0] == '/')
-		    {
-		      snprintf (cmd, sizeof cmd, "w %s", b);
-		      ed_cmd (cmd);
-		    }
-		  command_giver = ob;
-		  if (ob->interactive && ob->interactive->ed_buffer)
-		    {
-		      snprintf (cmd, sizeof cmd, "Q");	/* ed_cmd () appends to its argument */
-		      ed_cmd (cmd);
-		    }
-		  pop_context (&econ);
-		}
-	      else
-		{
-		  restore_context (&econ);
-		  pop_context (&econ);
-		}
-	    }
+	  /* each editor command in its own error context: an error raised by the master inside "w" must not
+	   * skip the "Q" (note: ed_start () leaves the session allocated when check_valid_path () raises) */
+	  if (b[0] == '/')
+	    ed_do (ob, "w ", b);
+	  ed_do (ob, "Q", "");
 	  fs_armed = 0;
 	  command_giver = 0;
 	  return 1;
